@@ -181,11 +181,12 @@ Record sv := mkSv {
   v_rej_go : bool;             (* goroutine that will emit the close of a refused stream *)
   v_wu : bool;                 (* window-update callback past its half-close check, before its Send *)
   v_err : bool;                (* the serve loop ended the tunnel (id reused / never created) *)
+  v_ctx : bool;                (* the handler's context has been cancelled by finishStream *)
   v_g : gs                     (* ghost *)
 }.
 #[export] Instance eta_sv : Settable _ := settable! mkSv
-  <v_tab; v_h; v_fin; v_lf; v_hf; v_half; v_hdr; v_closed; v_cg; v_rej_go; v_wu; v_err; v_g>.
-Definition v_init : sv := mkSv false HNone None S0 S0 false false false CGNone false false false GsStart.
+  <v_tab; v_h; v_fin; v_lf; v_hf; v_half; v_hdr; v_closed; v_cg; v_rej_go; v_wu; v_err; v_ctx; v_g>.
+Definition v_init : sv := mkSv false HNone None S0 S0 false false false CGNone false false false false GsStart.
 
 (* how the serve loop judges the frame it takes *)
 Inductive lmode := LNormal | LReject (* new_stream refused: shutting down, revision, method *) | LBad (* frame refused by the stream *).
@@ -196,7 +197,7 @@ Inductive vlbl :=
 
 (* compare-and-swap on finishErr, then cancel; the finisher goes on from SRem *)
 Definition s_cas (v : sv) (c : scause) : sv :=
-  match v_fin v with None => v <| v_fin := Some c |> | Some _ => v end.
+  match v_fin v with None => v <| v_fin := Some c |> <| v_ctx := true |> | Some _ => v <| v_ctx := true |> end.
 
 (* one step of a finisher standing at [pc] *)
 Definition s_fin (v : sv) (pc : sstage) : option (sv * sstage) :=
